@@ -12,9 +12,10 @@ from ..cfg import CFG, Node
 from .. import tables, rx
 from ..tables import Atom
 from ..paths import enumerate_paths
-from ..consteval import fold_const, Regex
+from ..consteval import fold_const, fold_expr, Regex, EnumMember
 from .c03_flow import OFlow, SanCall, strip_proj, via_of
-from .c03_inline import inline_helpers, inline_test_locals, comprehension_as_loop
+from .c03_inline import (inline_helpers, inline_test_locals, comprehension_as_loop, unroll_const_loops, specialise, ifexp_assign_to_if,
+                         search_loop_to_any, index_loop_to_direct, desugar_list_comp_assigns)
 
 NINJA = 'mesonbuild/backend/ninjabackend.py'
 BACKENDS = 'mesonbuild/backend/backends.py'
@@ -55,7 +56,8 @@ def _nfunc(mod: Module, qn: str) -> ast.AST:
     """The function with calls to private helpers of its class/module expanded in place and boolean single-definition
     locals substituted into the tests that read them (both are syntactic normalisations of a copy)."""
     cls = qn.split('.')[0] if '.' in qn and mod.has_cls(qn.split('.')[0]) else None
-    return inline_test_locals(inline_helpers(mod, mod.func(qn), cls, NO_INLINE))
+    f = unroll_const_loops(inline_helpers(mod, mod.func(qn), cls, NO_INLINE))
+    return inline_test_locals(search_loop_to_any(index_loop_to_direct(ifexp_assign_to_if(f))))
 
 
 class _Roles:
@@ -233,6 +235,21 @@ def _inline_single_defs(text: str, fn: ast.AST, pure: T.Set[str]) -> str:
     return norm(e)
 
 
+def _row_return(r: tables.Row) -> str:
+    """Outcome text of a `return` row; when a plain local is returned, the expression last assigned to it on this path
+    (reaching definition on the row, taken from the recorded assignment effects; at most 4 steps)."""
+    text = r.outcome[1]
+    for _ in range(4):
+        e = _expr(text)
+        if not (isinstance(e, ast.Name) and not e.id.startswith('ARG')):
+            break
+        defs = [x.split(':=', 1)[1].strip() for x in r.effects if x.startswith(e.id + ' := ')]
+        if not defs:
+            break
+        text = defs[-1]
+    return text
+
+
 def _template_items(repl: str) -> T.List[T.Any]:
     """Constant folding of a literal re replacement template: literal text and group numbers/names."""
     out: T.List[T.Any] = []
@@ -335,6 +352,13 @@ def r1a(ctx: RuleCtx) -> None:
     loops = [n for n in ast.walk(fn) if isinstance(n, ast.For)]
     outer = [l for l in loops if {strip_proj(o) for o in fl.origins(l.iter)} >= {'attr:self.elems'} and 'attr:self.elems[1]' not in fl.origins(l.iter)]
     inner = [l for l in loops if 'attr:self.elems[1]' in fl.origins(l.iter)]
+    if len(inner) == 0:
+        # the value loop may be spelled as a comprehension: read `xs = [ELT for v in it]` as the loop it abbreviates
+        fn = desugar_list_comp_assigns(fn)
+        fl = OFlow(fn, cut={'ninja_quote'}, opaque=True)
+        loops = [n for n in ast.walk(fn) if isinstance(n, ast.For)]
+        outer = [l for l in loops if {strip_proj(o) for o in fl.origins(l.iter)} >= {'attr:self.elems'} and 'attr:self.elems[1]' not in fl.origins(l.iter)]
+        inner = [l for l in loops if 'attr:self.elems[1]' in fl.origins(l.iter)]
     if len(outer) != 1 or len(inner) != 1 or not isinstance(inner[0].target, ast.Name):
         raise Undecided(f'{qn}: expected one loop over self.elems and one over the values of a variable (found {len(outer)}/{len(inner)})')
     iv = inner[0].target.id
@@ -453,26 +477,79 @@ def r1b(ctx: RuleCtx) -> None:
     ps = [a.arg for a in fn.args.args]
     if len(ps) != 2 or len(fn.args.defaults) != 1:
         raise Undecided(f'{qn}: expected (arg, quote function = default)')
-    tab = tables.extract(fn, name=qn, inline_calls={ps[1], 'ninja_quote'})   # the quote functions are pure: locals holding their results are inlined
+    pure = {ps[1], 'ninja_quote', 'str'}
+    str_is_s = [r.outcome for r in tables.extract(mod.func('NinjaCommandArg.__str__')).rows] == [('return', 'self.s')]
+    ref = {'none': 'ARG1.s', 'notNinja': 'ARG2(ARG1.s)', 'notShell': 'ninja_quote(ARG1.s)', 'both': 'ninja_quote(ARG2(ARG1.s))'}
+    outcomes: T.Dict[str, T.Tuple[str, ast.AST]] = {}
+    tab = tables.extract(fn, name=qn, inline_calls=pure, effects=_assign_eff)   # the quote functions are pure: locals holding their results are inlined
     atoms: T.Dict[Atom, str] = {}
+    chain_form = True
     for a in tab.atoms():
         ok = (a.kind == 'cmp' and a.args[0] == 'eq' and a.args[1] == 'ARG1.quoting' and a.args[2].startswith('Quoting.')) or \
              (a.kind == 'is' and a.args[0] == 'ARG1.quoting' and a.args[1].startswith('Quoting.'))
         if not ok:
-            raise Undecided(f'{qn}: condition {a!r} outside the vocabulary')
+            chain_form = False
+            break
         atoms[a] = a.args[-1].split('.')[1]
-    str_is_s = [r.outcome for r in tables.extract(mod.func('NinjaCommandArg.__str__')).rows] == [('return', 'self.s')]
-    ref = {'none': 'ARG1.s', 'notNinja': 'ARG2(ARG1.s)', 'notShell': 'ninja_quote(ARG1.s)', 'both': 'ninja_quote(ARG2(ARG1.s))'}
+    if chain_form and atoms:
+        for m in members:
+            rows = tab.fire({a: (k == m) for a, k in atoms.items()})
+            if len(rows) != 1:
+                raise Undecided(f'{qn}: {len(rows)} rows fire for Quoting.{m}')
+            got = _inline_single_defs(_row_return(rows[0]), fn, pure) if rows[0].outcome[0] == 'return' else ' '.join(map(str, rows[0].outcome))
+            outcomes[m] = (got, rows[0].path.events[-1].node)
+    else:
+        # table-driven form: `steps = TABLE.get(x.quoting, DEFAULT)` / `TABLE[x.quoting]` with a constant table keyed by the enum:
+        # fold the table and specialise the function per member (constant propagation + folding of constant branches)
+        look = None
+        for st in walk_no_nested(fn):
+            v = st.value if isinstance(st, (ast.Assign, ast.AnnAssign)) else None
+            if v is None:
+                continue
+            texpr = key = dflt = None
+            if isinstance(v, ast.Call) and isinstance(v.func, ast.Attribute) and v.func.attr == 'get' and 1 <= len(v.args) <= 2:
+                texpr, key, dflt = v.func.value, v.args[0], (v.args[1] if len(v.args) == 2 else ast.Constant(value=None))
+            elif isinstance(v, ast.Subscript) and not isinstance(v.slice, ast.Slice):
+                texpr, key = v.value, v.slice
+            if key is not None and norm(key) == f'{ps[0]}.quoting':
+                look = (st, texpr, dflt)
+        if look is None:
+            raise Undecided(f'{qn}: the quoting class is neither tested by a comparison chain nor looked up in a constant table ({[repr(a) for a in tab.atoms()][:3]})')
+        st, texpr, dflt = look
+        table = fold_expr(ctx.repo, mod, texpr, cls='NinjaRule')
+        if not isinstance(table, dict) or not all(isinstance(k_, EnumMember) for k_ in table):
+            raise Undecided(f'{qn}: {short(texpr)} does not fold to a table keyed by Quoting members')
+        dval = fold_expr(ctx.repo, mod, dflt, cls='NinjaRule') if dflt is not None else None
+        tgt = st.targets[0] if isinstance(st, ast.Assign) else st.target
+        names = [t.id for t in tgt.elts] if isinstance(tgt, ast.Tuple) and all(isinstance(t, ast.Name) for t in tgt.elts) else ([tgt.id] if isinstance(tgt, ast.Name) else None)
+        if names is None:
+            raise Undecided(f'{qn}: lookup result bound to {short(tgt)}')
+        bykey = {k_.name: v_ for k_, v_ in table.items()}
+        for m in members:
+            if m not in bykey and dflt is None:
+                raise Undecided(f'{qn}: the quoting table has no entry for Quoting.{m}')
+            val = bykey.get(m, dval)
+            vals = list(val) if isinstance(tgt, ast.Tuple) and isinstance(val, (tuple, list)) else [val]
+            if len(vals) != len(names) or not all(isinstance(x, (bool, int, str, type(None))) for x in vals):
+                raise Undecided(f'{qn}: table entry for Quoting.{m} is {val!r}')
+            fm = specialise(fn, st, dict(zip(names, vals)))
+            tm = tables.extract(fm, name=qn, inline_calls=pure)
+            if len(tm.rows) != 1 or tm.atoms() or tm.rows[0].outcome[0] != 'return':
+                raise Undecided(f'{qn}: specialised for Quoting.{m} the function still branches on {[repr(a) for a in tm.atoms()][:3]}')
+            outcomes[m] = (_inline_single_defs(tm.rows[0].outcome[1], fm, pure), st)
+        ctx.note(f'{qn}: quoting steps are looked up in the constant table {short(texpr)} ({len(table)} entries), folded per member')
     for m in members:
-        rows = tab.fire({a: (k == m) for a, k in atoms.items()})
-        if len(rows) != 1:
-            raise Undecided(f'{qn}: {len(rows)} rows fire for Quoting.{m}')
-        got = _inline_single_defs(rows[0].outcome[1], fn, {ps[1], 'ninja_quote', 'str'}) if rows[0].outcome[0] == 'return' else ' '.join(map(str, rows[0].outcome))
+        got, node = outcomes[m]
         if str_is_s:
             got = got.replace('str(ARG1)', 'ARG1.s')
+        def understood(e: ast.AST) -> bool:
+            if norm(e) in ('ARG1.s', 'str(ARG1)'):
+                return True
+            return isinstance(e, ast.Call) and isinstance(e.func, ast.Name) and e.func.id in ('ARG2', 'ninja_quote') and len(e.args) == 1 and not e.keywords and understood(e.args[0])
+        if not understood(_expr(got)):
+            raise Undecided(f'{qn}: for Quoting.{m} the function returns `{short(got, 90)}`, which is not a composition of the shell/rsp quote function and ninja_quote over the argument text')
         ctx.require(got == ref[m], f'{qn}: Quoting.{m} -> {got}', mod, qn, f'Quoting.{m} -> {got}',
-                    f'an argument marked Quoting.{m} is emitted as {got}; the meaning of Quoting.{m} is {ref[m]} (ARG2 = shell/rsp quote function)',
-                    rows[0].path.events[-1].node)
+                    f'an argument marked Quoting.{m} is emitted as {got}; the meaning of Quoting.{m} is {ref[m]} (ARG2 = shell/rsp quote function)', node)
     # flows
     cut = {'ninja_quote', '_quoter'}
     qn = 'NinjaRule.write'
@@ -580,8 +657,8 @@ def r1c(ctx: RuleCtx) -> None:
         if not (isinstance(node, ast.Attribute) and attr_chain(node) == 'Quoting.none'):
             continue
         par = pm.get(node)
-        if isinstance(par, ast.Compare):
-            continue
+        if isinstance(par, ast.Compare) or (isinstance(par, ast.Dict) and any(k_ is node for k_ in par.keys)) or isinstance(par, (ast.Set, ast.Tuple, ast.List)):
+            continue      # compared with / key of a constant table / member of a constant collection: not a construction
         if isinstance(par, ast.keyword):
             par = pm.get(par)
         if not isinstance(par, ast.Call):
@@ -692,7 +769,7 @@ def r2(ctx: RuleCtx) -> None:
                     if r.outcome[0] != 'return':
                         ctx.violation(mod, qn, f'{sorted(present)}, {pname}={flag}: {r.outcome}', f'{where}: does not return a value: {r.outcome}', node)
                         continue
-                    e = _expr(r.outcome[1])
+                    e = _expr(_row_return(r))
                     if isinstance(e, ast.Name) and e.id == 'ARG1':
                         got, how = set(), 'returns the text unchanged'
                     elif isinstance(e, ast.Call) and isinstance(e.func, ast.Attribute) and e.func.attr == 'sub' and len(e.args) == 2 \
@@ -761,9 +838,39 @@ def _style_atom(a: Atom, subjects: T.Set[str]) -> T.Optional[T.Callable[[str], b
 def _qf_map(ctx: RuleCtx, mod: Module, qn: str, var: str, subjects: T.Set[str], members: T.List[str],
             rsp_flag_ok: T.Callable[[Atom], bool]) -> T.Dict[T.Tuple[bool, str], str]:
     fn = _nfunc(mod, qn)
-    body = [st for st in fn.body if any(isinstance(n, ast.Name) and n.id == var and isinstance(n.ctx, ast.Store) for n in ast.walk(st))]
+    body = [st for st in fn.body if any(isinstance(n, ast.Name) and n.id == var and isinstance(n.ctx, ast.Store) for n in ast.walk(st))
+            and not (isinstance(st, ast.AnnAssign) and st.value is None)]       # a bare annotation binds nothing
     if not body:
         raise Undecided(f'{qn}: no assignment to {var}')
+    # table-driven form: var = TABLE.get(<style>, DEFAULT) / TABLE[<style>] with a constant table keyed by the enum (catalogue B5)
+    if len(body) == 1 and isinstance(body[0], (ast.Assign, ast.AnnAssign)) and body[0].value is not None:
+        v = body[0].value
+        texpr = key = dflt = None
+        if isinstance(v, ast.Call) and isinstance(v.func, ast.Attribute) and v.func.attr == 'get' and 1 <= len(v.args) <= 2:
+            texpr, key, dflt = v.func.value, v.args[0], (v.args[1] if len(v.args) == 2 else None)
+        elif isinstance(v, ast.Subscript) and not isinstance(v.slice, ast.Slice):
+            texpr, key = v.value, v.slice
+        if key is not None and norm(key) in subjects:
+            cls = qn.split('.')[0] if '.' in qn else None
+            table = fold_expr(ctx.repo, mod, texpr, cls=cls)
+            if not isinstance(table, dict) or not all(isinstance(k_, EnumMember) for k_ in table):
+                raise Undecided(f'{qn}: {short(texpr)} does not fold to a table keyed by the rsp style')
+
+            def fname(x: T.Any) -> str:
+                nm = getattr(x, 'name', None)
+                if not isinstance(nm, str):
+                    raise Undecided(f'{qn}: table value {x!r} is not a function reference')
+                return nm
+            bykey = {k_.name: fname(v_) for k_, v_ in table.items()}
+            out0: T.Dict[T.Tuple[bool, str], str] = {}
+            for m in members:
+                if m in bykey:
+                    out0[(True, m)] = bykey[m]
+                elif dflt is not None and isinstance(dflt, ast.Name):
+                    out0[(True, m)] = dflt.id
+                else:
+                    raise Undecided(f'{qn}: no table entry / default for style {m}')
+            return out0
     tab = tables.extract(fn, body=body, effects=_assign_eff, inline=False, name=f'{qn}:{var}')
     preds: T.Dict[Atom, T.Callable[[str], bool]] = {}
     flags: T.List[Atom] = []
@@ -1112,7 +1219,7 @@ def r4a(ctx: RuleCtx) -> None:
     if not sh:
         ctx.ok(f'{MESON_EXE}: no shell=..., os.system, create_subprocess_shell (detector self-checked on a built-in example)')
     qn = 'run_exe'
-    fn = mod.func(qn)
+    fn = _nfunc(mod, qn)
     fl = OFlow(fn)
     p0 = fn.args.args[0].arg
     spawns = [c for c in ast.walk(fn) if isinstance(c, ast.Call) and (call_name(c) or '') in SPAWN_LIST]
@@ -1137,7 +1244,7 @@ def r4a(ctx: RuleCtx) -> None:
             else:
                 raise Undecided(f'{qn}: argv is built as {" + ".join(ch)}, outside the understood forms')
     # run(): --unpickle gives the object to run_exe unchanged; otherwise remaining argv
-    rfn = mod.func('run')
+    rfn = _nfunc(mod, 'run')
     calls = [c for c in ast.walk(rfn) if isinstance(c, ast.Call) and call_name(c) == 'run_exe']
     rfl = OFlow(rfn)
     for c in calls:
@@ -1213,7 +1320,7 @@ def r4b(ctx: RuleCtx) -> None:
     if not sh:
         ctx.ok(f'{MTEST}: no shell=..., os.system, create_subprocess_shell')
     qn = 'SingleTestRunner._run_subprocess'
-    fn = mod.func(qn)
+    fn = _nfunc(mod, qn)
     spawns = [c for c in ast.walk(fn) if isinstance(c, ast.Call) and (call_name(c) or '') in SPAWN_LIST]
     ctx.floor(f'{qn}: process creations', len(spawns), 1)
     p_args = [a.arg for a in fn.args.args if a.arg != 'self'][0]
@@ -1230,7 +1337,7 @@ def r4b(ctx: RuleCtx) -> None:
             raise Undecided(f'{qn}: process created with ({", ".join(short(a, 30) for a in c.args)}), outside the understood forms')
     # _run_cmd -> _run_subprocess
     qn2 = 'SingleTestRunner._run_cmd'
-    fn2 = mod.func(qn2)
+    fn2 = _nfunc(mod, qn2)
     fl2 = OFlow(fn2)
     p_cmd = [a.arg for a in fn2.args.args if a.arg != 'self'][-1]
     calls = [c for c in ast.walk(fn2) if isinstance(c, ast.Call) and call_method(c) == '_run_subprocess']
@@ -1245,7 +1352,7 @@ def r4b(ctx: RuleCtx) -> None:
             raise Undecided(f'{qn2}: argv handed to _run_subprocess is {" + ".join(ch)}, outside the understood forms')
     # run -> _run_cmd
     qn3 = 'SingleTestRunner.run'
-    fn3 = mod.func(qn3)
+    fn3 = _nfunc(mod, qn3)
     fl3 = OFlow(fn3)
     calls = [c for c in ast.walk(fn3) if isinstance(c, ast.Call) and call_method(c) == '_run_cmd']
     ctx.floor(f'{qn3}: _run_cmd calls', len(calls), 1)
@@ -1259,7 +1366,7 @@ def r4b(ctx: RuleCtx) -> None:
             raise Undecided(f'{qn3}: test argv is {" + ".join(ch)}, outside the understood form {" + ".join(want)}')
     # _get_cmd: wrapper + test command
     qn4 = 'SingleTestRunner._get_cmd'
-    fn4 = mod.func(qn4)
+    fn4 = mod.func(qn4)       # not normalised: the test command is identified as the call of _get_test_cmd
     fl4 = OFlow(fn4)
     rets = [st.value for st in walk_no_nested(fn4) if isinstance(st, ast.Return) and st.value is not None and not (isinstance(st.value, ast.Constant) and st.value.value is None)]
     ctx.floor(f'{qn4}: returned commands', len(rets), 1)
@@ -1277,7 +1384,7 @@ def r4b(ctx: RuleCtx) -> None:
 def r4c(ctx: RuleCtx) -> None:
     mod = ctx.repo.module(BACKENDS)
     qn = 'Backend.create_test_serialisation'
-    fn = mod.func(qn)
+    fn = _nfunc(mod, qn)
     fl = OFlow(fn)
     cls = mod.cls('TestSerialisation')
     fields = [st.target.id for st in cls.body if isinstance(st, ast.AnnAssign) and isinstance(st.target, ast.Name)]
@@ -1367,6 +1474,26 @@ def _is_template_replace(v: ast.AST, var: str) -> T.Optional[str]:
     return None
 
 
+KNOWN_PATH_REWRITES = {'os.path.expanduser', 'os.path.expandvars', 'os.path.normpath', 'os.path.abspath', 'os.path.realpath', 'os.path.normcase',
+                       'shlex.quote', 'quote_arg', 'mesonlib.quote_arg', 'str.strip', 'str.lower', 'str.upper'}
+
+
+def _understood_rewrite(v: ast.AST, var: str) -> bool:
+    """Is `var = v` recognisably a rewrite of the string (so that reporting it is positive evidence)?  Anything else - a call of a
+    repository function, a replace with a computed pattern, a lookup - is not understood and makes the verdict undecided."""
+    if isinstance(v, ast.Call) and isinstance(v.func, ast.Attribute) and v.func.attr in STR_TRANSFORMS and var in {x.id for x in ast.walk(v.func.value) if isinstance(x, ast.Name)}:
+        if v.func.attr == 'replace':
+            return bool(v.args) and isinstance(v.args[0], ast.Constant)       # constant pattern that is not an @TEMPLATE@
+        return True
+    if isinstance(v, ast.Call) and call_name(v) in KNOWN_PATH_REWRITES:
+        return True
+    if isinstance(v, (ast.JoinedStr, ast.BinOp)) and var in {x.id for x in ast.walk(v) if isinstance(x, ast.Name)}:
+        return True
+    if isinstance(v, ast.Subscript) and norm(v.value) == var:
+        return True
+    return False
+
+
 def _eff_items(e: str, lst: str) -> T.Optional[T.List[str]]:
     """Items an effect text adds to list `lst` (append / extend / +=), None when the effect is something else."""
     try:
@@ -1421,8 +1548,11 @@ def r5a(ctx: RuleCtx) -> None:
         for e in r.effects:
             items = _eff_items(e, cmdv)
             if e.startswith(f'{it} := '):
-                t = _is_template_replace(_expr(e.split(':=', 1)[1].strip()), it)
+                rhs = _expr(e.split(':=', 1)[1].strip())
+                t = _is_template_replace(rhs, it)
                 if t is None:
+                    if not _understood_rewrite(rhs, it):
+                        raise Undecided(f'{qn}: a string element is rebound by `{short(e, 80)}`, a form the rule does not understand')
                     bad.append(e)
                 else:
                     seen_templates |= set(t.split(','))
@@ -1441,6 +1571,30 @@ def r5a(ctx: RuleCtx) -> None:
                     f'a string element of the command is rewritten by `{key}`; only .replace of an @TEMPLATE@ literal is an established rewrite and the element must be appended once',
                     r.path.events[-1].node if r.path.events else loop)
     ctx.floor(f'{qn}: paths for string elements', n, 4)
+    # every in-place template is substituted on every path where the element may contain it
+    for r in tab.rows:
+        is_str = [v for a, v in r.conds.items() if a.kind == 'isinstance' and a.args == (it, ('str',))]
+        if not is_str or not is_str[0] or r.outcome[0] in ('raise',):
+            continue
+        done = set()
+        for e in r.effects:
+            if e.startswith(f'{it} := '):
+                t = _is_template_replace(_expr(e.split(':=', 1)[1].strip()), it)
+                done |= set(t.split(',')) if t else set()
+        absent = set()
+        for a, v in r.conds.items():
+            if a.kind == 'in' and a.args[1] == it and not v:
+                try:
+                    c0 = ast.literal_eval(a.args[0])
+                except Exception:
+                    continue
+                if isinstance(c0, str):
+                    absent |= {t for t in seen_templates if c0 in t}     # a substring of the template is absent -> so is the template
+        missing = sorted(seen_templates - done - absent)
+        ctx.require(not missing, f'{qn}: templates {sorted(seen_templates)} each substituted or absent on [{short(repr(r), 60)}]', mod, qn,
+                    f'template {missing} not substituted when {"; ".join(("" if v else "not ") + repr(a) for a, v in r.conds.items() if a.kind == "in")}',
+                    f'on the path [{short(repr(r), 200)}] a string element may contain {missing} (its presence is not excluded) but the path does not substitute it: '
+                    'the literal placeholder reaches the command', r.path.events[-1].node if r.path.events else loop)
     ctx.note(f'{qn}: templates substituted in place: {sorted(seen_templates)}')
     # after the loop
     kinds = []
@@ -1477,7 +1631,7 @@ def r5a(ctx: RuleCtx) -> None:
 def r5b(ctx: RuleCtx) -> None:
     mod = ctx.repo.module(BACKENDS)
     qn = 'Backend.escape_extra_args'
-    fn = mod.func(qn)
+    fn = _nfunc(mod, qn)
     fn = comprehension_as_loop(fn) or fn      # `return [ELT for arg in args]` is read as the loop it abbreviates
     loops = [st for st in fn.body if isinstance(st, ast.For) and isinstance(st.target, ast.Name)]
     rets = [st for st in fn.body if isinstance(st, ast.Return)]
@@ -1625,7 +1779,25 @@ class _R6:
         reasons = next(iter(lists))
         A = [n for n in cfg.nodes if self.appended_list(n) == reasons and _only_via_edge(cfg, n, nl, True)]
         msgs = {c.value for n in A for c in ast.walk(n.expr()) if isinstance(c, ast.Constant) and isinstance(c.value, str)}
+        for n in A:
+            for c in ast.walk(n.expr()):
+                if isinstance(c, (ast.Name, ast.Attribute)) and not (isinstance(c, ast.Name) and c.id == reasons):
+                    v = self.const_str(c)
+                    if v is not None:
+                        msgs.add(v)
         return reasons, A, msgs, t_succ
+
+    def const_str(self, e: ast.AST) -> T.Optional[str]:
+        """A module/class constant string named by e (None when e is not such a constant)."""
+        if isinstance(e, ast.Constant):
+            return e.value if isinstance(e.value, str) else None
+        if isinstance(e, ast.Name) and (e.id in self.fl.defs or e.id in self.fl.params):
+            return None
+        try:
+            v = fold_expr(self.mod.repo, self.mod, e, cls='Backend')
+        except Exception:
+            return None
+        return v if isinstance(v, str) else None
 
     def find_force(self, reasons: str) -> T.List[Node]:
         out = [n for n in self.cfg.nodes if n.kind == 'stmt' and isinstance(n.ast, ast.Assign) and any(isinstance(x, ast.Name) and x.id == reasons for x in ast.walk(n.ast.value))
@@ -1664,20 +1836,47 @@ class _R6:
             return not (a.kind == 'test' and lab is False and _truthy_given_nonempty(a.expr(), reasons) is True)
         return bool(A) and t.id not in cfg.reachable(A, [f], edge_ok=edge_ok)
 
+    def related_guards(self, r: Node, names: T.Set[str], reasons: str) -> T.List[str]:
+        """Guards of r that mention the flag / the reasons list in a form the rule does not understand.  A conjunct that can
+        only become *more* true when a reason is added (`K in reasons`, `reasons`, `len(reasons) > c`) is understood: it does
+        not exclude the newline path.  The False edge of a test matters only if every conjunct of the test is about these names."""
+        def mentions(e: ast.AST) -> bool:
+            return bool(names & {x.id for x in ast.walk(e) if isinstance(x, ast.Name)})
+
+        def monotone(cj: ast.AST) -> bool:
+            if isinstance(cj, ast.Compare) and len(cj.ops) == 1 and isinstance(cj.ops[0], ast.In) and norm(cj.comparators[0]) == reasons:
+                return True
+            if norm(cj) in (reasons, f'bool({reasons})'):
+                return True
+            return isinstance(cj, ast.Compare) and len(cj.ops) == 1 and isinstance(cj.ops[0], (ast.Gt, ast.GtE, ast.NotEq)) and norm(cj.left) == f'len({reasons})'
+        out = []
+        for t in self.tests:
+            cjs = _conjuncts(t.expr())
+            if _only_via_edge(self.cfg, r, t, True) and any(mentions(c) and not monotone(c) for c in cjs):
+                out.append(short(t.expr(), 60))
+            elif _only_via_edge(self.cfg, r, t, False) and all(mentions(c) for c in cjs) and not all(monotone(c) for c in cjs) and norm(t.expr()) not in names:
+                out.append('not (' + short(t.expr(), 60) + ')')
+        return out
+
     def excluded(self, r: Node, nl: Node, f: Node, force: str, reasons: str, msgs: T.Set[str], A: T.Optional[T.List[Node]] = None) -> T.Optional[str]:
         """Why the return r cannot be taken once the newline test nl was true (None = it can)."""
         cfg = self.cfg
         for t in self.tests:
+            if _only_via_edge(cfg, r, t, False) and norm(t.expr()) == force and \
+                    (cfg.must_pass(cfg.entry, t, [f]) or (A is not None and self.flag_set_before(t, f, A, reasons))):
+                return f'on the False branch of `if {force}`'
             if not _only_via_edge(cfg, r, t, True):
                 continue
             for cj in _conjuncts(t.expr()):
                 if isinstance(cj, ast.UnaryOp) and isinstance(cj.op, ast.Not) and norm(cj.operand) == force and \
                         (cfg.must_pass(cfg.entry, t, [f]) or (A is not None and self.flag_set_before(t, f, A, reasons))):
                     return f'guarded by `not {force}`'
-                if isinstance(cj, ast.Compare) and len(cj.ops) == 1 and isinstance(cj.ops[0], ast.Eq) and norm(cj.left) == reasons \
-                        and isinstance(cj.comparators[0], ast.List) and all(isinstance(x, ast.Constant) for x in cj.comparators[0].elts) \
-                        and msgs and not (msgs & {x.value for x in cj.comparators[0].elts}) and cfg.must_pass(cfg.entry, t, [nl]):
-                    return f'guarded by `{short(cj, 50)}`, false once {sorted(msgs)} is recorded'
+                if isinstance(cj, ast.Compare) and len(cj.ops) == 1 and isinstance(cj.ops[0], ast.Eq) and reasons in (norm(cj.left), norm(cj.comparators[0])):
+                    other = cj.comparators[0] if norm(cj.left) == reasons else cj.left
+                    if isinstance(other, (ast.List, ast.Tuple)):
+                        vals = [self.const_str(x) for x in other.elts]
+                        if all(v is not None for v in vals) and msgs and not (msgs & set(vals)) and cfg.must_pass(cfg.entry, t, [nl]):
+                            return f'guarded by `{short(cj, 50)}`, false once {sorted(msgs)} is recorded'
         return None
 
 
@@ -1731,6 +1930,10 @@ def r6(ctx: RuleCtx) -> None:
     ctx.floor(f'{qn}: returns that place the arguments on the command line', len(direct), 3)
     for r in direct:
         why = R.excluded(r, nl, f, force, reasons, msgs, A)
+        if why is None:
+            guards = R.related_guards(r, {force, reasons}, reasons)
+            if guards:
+                raise Undecided(f'{qn}: `{short(r.ast, 50)}` depends on {guards}, which mention `{force}`/`{reasons}` in a form the rule does not understand')
         ctx.require(why is not None, f'{qn}: `{short(r.ast, 60)}` unreachable for a newline argument: {why}', mod, qn, r.ast,
                     f'`{short(r.ast, 70)}` puts the arguments on the ninja command line and is not excluded when an argument contains a newline '
                     f'(no dominating `not {force}` / `{reasons} == [...]` guard)', r.ast)
@@ -1856,10 +2059,27 @@ def _value_root(e: ast.AST, fl: OFlow, depth: int = 0) -> ast.AST:
     return e
 
 
+def _reach_calls(fl: OFlow, e: ast.AST, pred: T.Callable[[ast.Call], bool], depth: int = 0, seen: T.Optional[T.Set[str]] = None) -> T.List[ast.Call]:
+    """Calls satisfying pred among the expressions the value of e is computed from (def-use closure over the locals)."""
+    seen = seen if seen is not None else set()
+    out: T.List[ast.Call] = []
+    for n in ast.walk(e):
+        if isinstance(n, ast.Call) and pred(n) and not any(n is o for o in out):
+            out.append(n)
+        if isinstance(n, ast.Name) and n.id not in seen and depth < 8:
+            seen.add(n.id)
+            for d in fl.defs.get(n.id, []):
+                if isinstance(d, ast.AST):
+                    for c in _reach_calls(fl, d, pred, depth + 1, seen):
+                        if not any(c is o for o in out):
+                            out.append(c)
+    return out
+
+
 def r7(ctx: RuleCtx) -> None:
     mod = ctx.repo.module(BACKENDS)
     qn = 'Backend.get_executable_serialisation'
-    fn = mod.func(qn)
+    fn = _nfunc(mod, qn)
     fl = OFlow(fn)
     n = 0
     for w in ast.walk(fn):
@@ -1869,14 +2089,26 @@ def r7(ctx: RuleCtx) -> None:
             c = item.context_expr
             if not (isinstance(c, ast.Call) and call_name(c) == 'open' and c.args and isinstance(item.optional_vars, ast.Name)):
                 continue
-            hashers = sorted({o[5:-len('.hexdigest')] for o in fl.origins(c.args[0]) if o.startswith('call:') and o.endswith('.hexdigest')})
-            if not hashers:
+            digests = _reach_calls(fl, c.args[0], lambda x: isinstance(x.func, ast.Attribute) and x.func.attr in ('hexdigest', 'digest'))
+            if not digests:
                 continue
-            if len(hashers) != 1:
-                raise Undecided(f'{qn}: file name {short(c.args[0])} depends on several digests {hashers}')
-            h, f = hashers[0], item.optional_vars.id
-            fed = [x.args[0] for x in ast.walk(fn) if isinstance(x, ast.Call) and isinstance(x.func, ast.Attribute) and x.func.attr == 'update'
-                   and norm(x.func.value) == h and len(x.args) == 1]
+            if len(digests) != 1:
+                raise Undecided(f'{qn}: file name {short(c.args[0])} depends on {len(digests)} digests')
+            recv = digests[0].func.value
+            f = item.optional_vars.id
+            fed: T.List[ast.AST] = []
+            if isinstance(recv, ast.Name):
+                h = recv.id
+                fed = [x.args[0] for x in ast.walk(fn) if isinstance(x, ast.Call) and isinstance(x.func, ast.Attribute) and x.func.attr == 'update'
+                       and norm(x.func.value) == h and len(x.args) == 1]
+                for d0 in fl.defs.get(h, []):
+                    if isinstance(d0, ast.Call) and d0.args and not any(d0 is a_ for a_ in fed):
+                        fed += list(d0.args[:1])
+            elif isinstance(recv, ast.Call):       # hashlib.sha1(data).hexdigest()
+                h = norm(recv.func)
+                fed = list(recv.args[:1])
+            else:
+                raise Undecided(f'{qn}: digest taken from {short(recv)}')
             written = [x.args[0] for x in ast.walk(w) if isinstance(x, ast.Call) and isinstance(x.func, ast.Attribute) and x.func.attr == 'write'
                        and norm(x.func.value) == f and len(x.args) == 1]
             if len(fed) != 1 or len(written) != 1:
@@ -1900,6 +2132,9 @@ def r7(ctx: RuleCtx) -> None:
 # R5c  generator(): user extra_args are spliced after the path rewrites (must-not-flow, flow-sensitive by CFG order)
 
 INTERP = 'mesonbuild/interpreter/interpreter.py'
+# str -> str methods that rewrite an argument in place (encode/join/split/format change the kind of value: hashing, joining for a file)
+REWRITES = {'replace', 'strip', 'lstrip', 'rstrip', 'lower', 'upper', 'translate', 'expandtabs', 'title', 'capitalize', 'casefold', 'swapcase',
+            'removeprefix', 'removesuffix', 'zfill', 'center', 'ljust', 'rjust'}
 
 
 def _method(ctx: RuleCtx, mod: Module, cls: str, name: str) -> T.Optional[ast.AST]:
@@ -1930,7 +2165,7 @@ def _helper_summary(h: ast.AST) -> T.Tuple[T.Set[str], T.Set[str]]:
     fl = OFlow(h)
     rewritten: T.Set[str] = set()
     for c in ast.walk(h):
-        if isinstance(c, ast.Call) and isinstance(c.func, ast.Attribute) and c.func.attr in STR_TRANSFORMS:
+        if isinstance(c, ast.Call) and isinstance(c.func, ast.Attribute) and c.func.attr in REWRITES:
             rewritten |= {strip_proj(o)[6:] for o in _ctx_origins(fl, h, c.func.value) if o.startswith('param:') and strip_proj(o) != 'param:self'}
     ret: T.Set[str] = set()
     for st in walk_no_nested(h):
@@ -1942,7 +2177,7 @@ def _helper_summary(h: ast.AST) -> T.Tuple[T.Set[str], T.Set[str]]:
 def r5c(ctx: RuleCtx) -> None:
     mod = ctx.repo.module(NINJA)
     cls, qn = 'NinjaBackend', 'NinjaBackend.generate_genlist_for_target'
-    fn = mod.func(qn)
+    fn = _nfunc(mod, qn)
     fl = OFlow(fn)
     cfg = CFG(fn)
     heads = cfg.find(lambda n: n.kind == 'iter')
@@ -1954,7 +2189,7 @@ def r5c(ctx: RuleCtx) -> None:
         cn = call_name(c) or ''
         if isinstance(c.func, ast.Attribute) and c.func.attr == 'get_extra_args':
             sources.append((c, f'call:{cn}'))
-        if isinstance(c.func, ast.Attribute) and c.func.attr in STR_TRANSFORMS and not isinstance(c.func.value, ast.Constant):
+        if isinstance(c.func, ast.Attribute) and c.func.attr in REWRITES and not isinstance(c.func.value, ast.Constant):
             rewriters.append((c, [c.func.value], f'.{c.func.attr}()'))
         if isinstance(c.func, ast.Attribute) and isinstance(c.func.value, ast.Name) and c.func.value.id == 'self':
             h = _method(ctx, mod, cls, c.func.attr)
@@ -1969,7 +2204,7 @@ def r5c(ctx: RuleCtx) -> None:
                 bound.update({k.arg: k.value for k in c.keywords if k.arg})
                 rewriters.append((c, [bound[p] for p in rew if p in bound], f'{cn}() rewrites its {sorted(rew)}'))
     ctx.floor(f'{qn}: places where the user extra_args enter the command', len(sources), 1)
-    ctx.floor(f'{qn}: string rewrites of the generator argument list', len(rewriters), 4)
+    ctx.floor(f'{qn}: string rewrites of the generator argument list', len(rewriters), 1)
     for sc, label in sources:
         snodes = cfg.node_containing(sc)
         hits = []
@@ -2039,7 +2274,7 @@ def _fresh(e: ast.AST, fl: OFlow, loop_nodes: T.Set[int], depth: int = 0) -> T.O
 def r8(ctx: RuleCtx) -> None:
     mod = ctx.repo.module(INTERP)
     qn = 'Interpreter._add_arguments'
-    fn = mod.func(qn)
+    fn = _nfunc(mod, qn)
     fl = OFlow(fn)
     params = [a.arg for a in fn.args.args if a.arg != 'self']
     # the store: the parameter that is written by subscript / setdefault
